@@ -82,6 +82,23 @@ def gen(rng, tier):
                 d = rng.randrange(1, 10)
                 cases.append(Case("hotpdg %s %d" % (hexs(dg), d), "hotpdg len=%d %s" % (ln, "short" if ln < off + 4 else "ok off=%d hi=%02x" % (off, hi)), ln >= off + 4,
                                   spec=("spec.hotpdg %s %d" % (hexs(dg), d)) if ln >= off + 4 else None))
+    # truncated 31-bit values AT the boundaries of the final reduction (C06_truncation splits on v mod 10^d): v = 0, 1, 10^d - 1, 10^d, 10^d + 1,
+    # multiples of 10^d and their neighbours, the largest multiple below 2^31, 2^31 - 1; each planted at several offsets of 20/32/64-byte digests,
+    # with the sign bit of the first byte both clear and set (it must be masked)
+    for d in range(1, 10):
+        m = 10 ** d; top = ((2 ** 31 - 1) // m) * m
+        vals = set([0, 1, m - 1, m, m + 1, 2 * m, 2 * m - 1, top, top - 1, top + 1, 2 ** 31 - 1])
+        for _ in range(3):
+            k = rng.randrange(1, (2 ** 31 - 1) // m + 1); vals.update([k * m, k * m - 1])
+        for v in sorted(x for x in vals if 0 <= x < 2 ** 31):
+            ln = rng.choice([20, 32, 64]); off = rng.choice([0, rng.randrange(1, 15), 15])
+            body = bytearray(contents(rng, ln, "rand")); body[-1] = (rng.randrange(16) << 4) | off
+            if off + 4 > ln - 1: off = 0; body[-1] = body[-1] & 0xF0
+            sign = rng.choice([0, 0x80])
+            body[off:off + 4] = bytes([(v >> 24) | sign, (v >> 16) & 255, (v >> 8) & 255, v & 255])
+            dg = bytes(body)
+            cases.append(Case("hotpdg %s %d" % (hexs(dg), d), "hotpdg boundary d=%d v%s" % (d, "=k*10^d" if v % m == 0 else ("=k*10^d-1" if v % m == m - 1 else "=other")), True,
+                              spec="spec.hotpdg %s %d" % (hexs(dg), d)))
     # every API family once during static initialisation of the driver (before the library's own dynamic initialisers have run)
     cases.append(Case("staticinit", "static-initialisation battery", True, spec="staticinit"))
     return cases
